@@ -254,11 +254,6 @@ package io
 // the digit table: 0..9 for '0'..'9', 255 for every other byte (established by init)
 //@ global forall(b, 0, 256, intDigits[b] == ite(48 <= b && b <= 57, b - 48, 255))
 
-//@ func init#1
-//@   prop C04
-//@   nopanic
-//@   modifies intDigits[*]
-
 // readUint64(c): c is the first byte of the number (already consumed). Consumes the digits that
 // follow and the byte that ends them; where it stops is a function of the stream alone: every
 // byte it passed over is a digit and the last one consumed is not (or the input ended, with an
@@ -368,12 +363,11 @@ package io
 //@   modifies @DECWIN, dec.buf[*]
 //@   ensures [count_is_not_negative] count >= 0
 //@   ensures [memory_count_is_bounded_by_the_rest_of_the_input] dec.reader == nil ==> count <= dec.tail - dec.head
-//@   ensures [invalid_count_is_an_error] count == 0 || dec.Error == old(dec.Error) || old(dec.Error) == nil
 //@   ensures [stream_count_is_bounded_by_the_rest_of_the_stream] dec.reader != nil ==> count <= ghost.rlen[ival(dec.reader)] - (ghost.rpos[ival(dec.reader)] - dec.tail + dec.head)
 
 // only scalar decoding reads a bare integer; counts and lengths go through ReadCount / next /
 // readStringAsBytes, indices through ReadReference / getStructInfo, which validate them
-//@ rule callers (*Decoder).ReadInt allowed=(*Decoder).ReadCount,(*Decoder).ReadReference,(*Decoder).decodeInt,(*Decoder).decodeFloat32,(*Decoder).decodeFloat64,(*Decoder).decodeInterface,(*Decoder).readUnsafeBytes,(*Decoder).readBytes,(*Decoder).ReadStringAsBytes,(*Decoder).ReadUnsafeString,(*Decoder).ReadSafeString,(*Decoder).ReadObject,(*structDecoder).decodeObject,(mapDecoder).decodeObjectAsMap,(byteArrayDecoder).Decode,(*Decoder).fastDecode prop=C04
+//@ rule callers (*Decoder).ReadInt allowed=(*Decoder).ReadCount,(*Decoder).ReadReference,(*Decoder).decodeInt,(*Decoder).decodeFloat32,(*Decoder).decodeFloat64,(*Decoder).decodeInterface,(*Decoder).readUnsafeBytes,(*Decoder).readBytes,(*Decoder).ReadStringAsBytes,(*Decoder).ReadUnsafeString,(*Decoder).ReadSafeString,(*Decoder).ReadObject,(*structDecoder).decodeObject,(mapDecoder).decodeObjectAsMap,(byteArrayDecoder).Decode,(*Decoder).decodeLongAsInterface prop=C04
 
 // the table of referable items
 //@ func (*decoderRefer).Add
@@ -437,5 +431,8 @@ package io
 //@ func (*Decoder).ReadReference
 //@   prop C04 C02
 //@   havoc
-//@   use decwf
-//@   modifies @DECWIN, dec.buf[*]
+//@   requires dec != nil && 0 <= dec.head && dec.head <= dec.tail && dec.tail <= len(dec.buf)
+//@   requires dec.reader != nil ==> ghost.rpos[ival(dec.reader)] >= dec.tail &&
+//@       forall(j, off(dec.buf) + dec.head, off(dec.buf) + dec.tail, mem(dec.buf, j) == ghost.rstream[ival(dec.reader)][ghost.rpos[ival(dec.reader)] - dec.tail - off(dec.buf) + j])
+//@   requires dec.reader != nil ==> dec.buf == nil || len(dec.buf) > 0
+//@   modifies ghost.rpos[*]
